@@ -245,3 +245,65 @@ def own_loop(body, header, dom):
             if p not in L and p in dom:
                 st.append(p)
     return L
+
+
+@rule('C01', 'restrict-prefix')
+def restrict_prefix(ctx):
+    from .c02 import check_restrict_prefix
+    check_restrict_prefix(ctx, ctx.F)
+
+
+@rule('C01', 'every-secret-tried', configs=('default', 'p256'))
+def every_secret_tried(ctx):
+    """In the opening loops every (encapsulation, secret) pair reaches the key-agreement call: the only
+    permitted bypass is the Classic arm of the variant test in the hybridized opening (a classic secret
+    has no ML-KEM key)."""
+    F = ctx.F
+    for k, allow_classic_skip in (('core::primitives::c_decaps', False), ('core::primitives::h_decaps', True)):
+        body = F.fn(k)
+        depth, dom = loop_depths(body)
+        nexts = [c for c in body.calls(r'^std::iter::Iterator::next$') if depth.get(c.b, 0) > 0]
+        if not nexts:
+            ctx.bad(k, 'loops', 'no loop found', body.where())
+            continue
+        inner = max(nexts, key=lambda c: depth.get(c.b, 0))
+        sks = [c.b for c in body.calls(r'traits::Nike::session_key$')]
+        ctx.check(bool(sks), k, 'calls session_key', '%s never derives the session key' % k, '', body.where())
+        t = body.term(inner.target)
+        some_t = [bb for v, bb in t['cases'] if v == 1]
+        if t['k'] != 'switch' or not some_t:
+            ctx.bad(k, 'inner loop shape', 'cannot decode the innermost loop', inner.where())
+            continue
+        L = own_loop(body, inner.b, dom)
+        # blocks reachable from the Some edge inside the loop without passing a session_key block
+        r = body.reach(some_t[0], avoid_blocks=sks)
+        bypass = inner.b in r
+        how = ''
+        ok = not bypass
+        if bypass and allow_classic_skip:
+            # the bypass must go through the non-Hybridized arm of a switch on discr(secret)
+            ok = True
+            rsk = F.adts['core::RightSecretKey']
+            names = [v['name'] for v in rsk['variants']]
+            sw_blocks = []
+            for b in sorted(L):
+                tt = body.term(b)
+                if tt['k'] == 'switch' and is_place(tt['d']):
+                    _, d = lib.resolve_copy(body, op_local(tt['d']))
+                    if d is not None and d.kind == 'assign' and d.rv['k'] == 'discr' and 'RightSecretKey' in body.local_ty(d.rv['pl']['l']):
+                        sw_blocks.append((b, tt))
+            # remove the classic edges and re-test
+            avoid = []
+            for (b, tt) in sw_blocks:
+                hyb_idx = names.index('Hybridized')
+                for v, bb in tt['cases'] + [[None, tt['else']]]:
+                    if v != hyb_idx:
+                        avoid.append((b, bb))
+            r2 = body.reach(some_t[0], avoid_blocks=sks, avoid_edges=avoid)
+            ok = inner.b not in r2 and bool(sw_blocks)
+            how = ' other than the classic-secret arm'
+        ctx.check(ok, k, 'every secret reaches session_key',
+                  'in %s an iteration of the innermost loop can finish without trying the secret (no session_key on some path%s): '
+                  'a key authorized through that secret does not open the encapsulation' % (k, how),
+                  'session_key on every path through the loop body' + (' (classic secrets skipped in the hybridized opening)' if allow_classic_skip else ''),
+                  inner.where())
